@@ -38,7 +38,7 @@ def run(ctx):
                 viol.append({'signature': 'oracle:digest-changed', 'case': {'spec': c['spec'], 'rewrite': r['name'], 'field': c['field'], 'key': c['key']},
                              'observed': r['digest'], 'expected': c['digest'],
                              'what': f'C07: case {i}: the neutral rewrite {r["name"]} changes the digest of {c["field"]}({c["key"]!r})'})
-            elif (r['name'] in ('rebuild', 'left-nested', 'lazy-tail', 'rshift', 'insert-ram', 'insert-disk', 'insert-columns', 'insert-inherit-all')
+            elif (r['name'] in ('rebuild', 'left-nested', 'lazy-tail', 'rshift', 'insert-ram', 'insert-disk', 'insert-columns', 'insert-inherit-all', 'keyword-order')
                   and r.get('ids_digest') != c['ids_digest']):
                 viol.append({'signature': 'oracle:ids-digest-changed', 'case': {'spec': c['spec'], 'rewrite': r['name']},
                              'observed': r.get('ids_digest'), 'expected': c['ids_digest'],
@@ -64,10 +64,12 @@ def run(ctx):
         per[v['signature']] = per.get(v['signature'], 0) + 1
         if per[v['signature']] <= 2:
             out_v.append(v)
-    return {'evaluations': checks, 'distinct_nontrivial': len({lib.case_hash(c['spec']) for c in base}),
+    res = {'evaluations': checks, 'distinct_nontrivial': len({lib.case_hash(c['spec']) for c in base}),
             'rule': 'random pipelines (Source, 1-3 Transforms with parameters, optionally a Silent argument) x neutral rewrites '
                     '(rebuild, three bracketings incl. LazyChain, inserted CacheToRam / CacheToDisk / inherit-all Transform, appended '
                     'CheckIds and Filter.keep(all), singleton Merge, change upstream of a Silent argument, pickle round trip of the '
                     'compiled function) in 3 interpreters with PYTHONHASHSEED 0, 1, 77; distinct by pipeline spec',
             'samples': [{'spec': base[0]['spec'], 'rewrites': [r['name'] for r in base[0]['rewrites']]}],
             'distribution': {'rewrite_kinds': kinds, 'interpreters': len(SEEDS)}, 'violations': out_v, 'oracle_checks': checks, 'mismatches': 0}
+    from props import colreuse
+    return colreuse.add(ctx, res, 'C07')
